@@ -2,7 +2,7 @@
 (* Accepts what the generic driver observed on gombok's real output for scratch packages iff: gombok ran, the package passes
    go vet and go build, every struct has the API Gombok!Required demands, every per-field law held on every sampled value
    (getter = field, WithF changes F only, builder setters, Option setters), every conversion round trip held, nothing
-   panicked, and - for @fp.Json structs - Unmarshal(Marshal(x)) = x and the bytes equal those of the hand-written twin. *)
+   panicked.  (The JSON laws of @fp.Json structs are C15's: TraceGombokJson.) *)
 EXTENDS Gombok, Json
 Trace == ndJsonDeserialize("trace.ndjson")
 VARIABLE l
@@ -18,7 +18,6 @@ TStruct == /\ Is("Struct") /\ Adv
            /\ Required(Ev.fields, Ev.labelled, Ev.json) \subseteq ToSet(Ev.has)
            /\ \A i \in DOMAIN Ev.fields : FieldOK(Ev.fields[i])
            /\ Ev.law.builder /\ Ev.law.tuple /\ Ev.law.unapply /\ Ev.law.map /\ Ev.law.mutable /\ Ev.law.labelled /\ Ev.law.string
-           /\ (Ev.json => Ev.law.json /\ Ev.law.jsontwin)
            /\ Ev.panics = <<>>
 TDetail == Is("JsonDetail") /\ Adv
 TNext == TGenerate \/ TStruct \/ TDetail
